@@ -165,6 +165,16 @@ def rule_r1_r2_r3(chk, prog):
                   'and decoded streams', loc=m.loc(r), nontrivial=True)
 
 
+def _stmt_facts(f, st):
+    """Guard facts at a statement (for nested defs: at the def statement)."""
+    cfg = cfg_of(f)
+    n = cfg.node_of.get(id(st))
+    if n is None:
+        return set()
+    IN, _ = cfg.guard_facts()
+    return set(IN.get(n) or ())
+
+
 def _parents(node, stop):
     n = getattr(node, '_parent', None)
     while n is not None and n is not stop:
@@ -187,7 +197,8 @@ def rule_nullness(chk, prog):
                                                  or r.endswith('.err')):
                     n += 1
                     facts = facts_at(f, c)
-                    ok = (f'{r} is None', False) in facts
+                    ok = (f'{r} is None', False) in facts or (
+                        f'{r} is not None', True) in facts
                     chk.check('C10.R3', f'checker.{fname}', c, ok,
                               f'"{unparse(c)}" is evaluated although {r} is '
                               'None when the golden run itself expired '
@@ -268,24 +279,58 @@ def rule_r4(chk, prog):
         c = seen['resource.RLIMIT_CPU']
         facts = facts_at(lr, c)
         tp = params_of(lr)[0]
-        ceil = any(isinstance(st, ast.Assign) and unparse(
-            st.targets[0]) == tp and unparse(
-                st.value) == f'math.ceil({tp})' for st in walk_no_nested(lr))
         under = any(isinstance(a, ast.If) and unparse(a.test) == tp
                     and any(c in list(ast.walk(b)) for b in a.body)
                     for a in _parents(c, lr))
-        ok = ((tp, True) in facts or under) and ceil and unparse(
-            c.args[1]).replace(' ', '') == f'({tp},{tp})'
+        # the limit value: (X, X) with X = math.ceil(<timeout parameter>)
+        lim = c.args[1]
+        okv = isinstance(lim, ast.Tuple) and len(lim.elts) == 2 and unparse(
+            lim.elts[0]) == unparse(lim.elts[1])
+        if okv:
+            x = lim.elts[0]
+            src = x
+            if isinstance(x, ast.Name):
+                ds = [st.value for st in walk_no_nested(lr)
+                      if isinstance(st, ast.Assign)
+                      and unparse(st.targets[0]) == x.id]
+                src = ds[-1] if ds else x
+            okv = unparse(src) == f'math.ceil({tp})'
+        ok = ((tp, True) in facts or under) and okv
         chk.check('C10.R4', lw, c, ok, 'the CPU limit is not ceil(timeout) '
                   'under the timeout test', loc=m.loc(c), nontrivial=True)
-    # setlimit targets the child
-    sl = [st for st in walk_no_nested(lr) if isinstance(st, ast.Assign)
-          and unparse(st.targets[0]) == 'setlimit']
-    txt = sorted(unparse(s.value).replace(' ', '') for s in sl)
-    ok = txt == ['lambda*args:resource.prlimit(pid,*args)',
-                 'lambda*args:resource.setrlimit(*args)']
+    # setlimit targets the child: prlimit(pid, ...) when a pid is given,
+    # setrlimit(...) (inside the child, via preexec_fn) otherwise
+    bodies = []
+    for st in ast.walk(lr):
+        if isinstance(st, ast.Assign) and unparse(
+                st.targets[0]) == 'setlimit' and isinstance(st.value,
+                                                            ast.Lambda):
+            bodies.append((st, st.value.body, [a.arg for a in [
+                st.value.args.vararg] if a]))
+        if isinstance(st, ast.FunctionDef) and st.name == 'setlimit':
+            rets = [r.value for r in ast.walk(st)
+                    if isinstance(r, ast.Return) and r.value is not None]
+            exprs = rets or [x.value for x in st.body
+                             if isinstance(x, ast.Expr)]
+            if len(exprs) == 1:
+                bodies.append((st, exprs[0], [st.args.vararg.arg]
+                               if st.args.vararg else []))
+    pidp = params_of(lr)[1] if len(params_of(lr)) > 1 else 'pid'
+    shapes = set()
+    for (st, body, va) in bodies:
+        v = va[0] if va else None
+        t = unparse(body).replace(' ', '')
+        facts = facts_at(lr, st if isinstance(st, ast.stmt) else st)
+        if t == f'resource.prlimit({pidp},*{v})':
+            shapes.add('prlimit' if (pidp, True) in facts_at(lr, body)
+                       or (pidp, True) in _stmt_facts(lr, st) else 'prlimit?')
+        elif t == f'resource.setrlimit(*{v})':
+            shapes.add('setrlimit')
+        else:
+            shapes.add('other:' + t)
+    ok = shapes == {'prlimit', 'setrlimit'}
     chk.check('C10.R4', lw, 'limit applied to the child (prlimit(pid) / '
-              'setrlimit in the child)', ok, f'setlimit is {txt}',
+              'setrlimit in the child)', ok, f'setlimit is {sorted(shapes)}',
               loc=m.loc(lr), nontrivial=True)
     # defaults
     g = m.func('do_golden_runs')
@@ -362,33 +407,82 @@ def rule_r5(chk, prog):
         'match_out_cc': '__GOLDEN_CC.out', 'match_err_cc': '__GOLDEN_CC.err'
     }
     exits = [c for c in calls_in(g) if call_name(c) == 'sys.exit']
+    raises = [r for r in ast.walk(g) if isinstance(r, ast.Raise)
+              and r.exc is not None]
+
+    def ev(e, val, opt, stream):
+        """Truth value of a condition over the atoms A = "stream is None",
+        B = "match in stream"; None if it mentions something else."""
+        if isinstance(e, ast.UnaryOp) and isinstance(e.op, ast.Not):
+            v = ev(e.operand, val, opt, stream)
+            return None if v is None else (not v)
+        if isinstance(e, ast.BoolOp):
+            vs = [ev(x, val, opt, stream) for x in e.values]
+            if any(v is None for v in vs):
+                return None
+            return all(vs) if isinstance(e.op, ast.And) else any(vs)
+        if isinstance(e, ast.Compare) and len(e.ops) == 1:
+            l, op, r = unparse(e.left), e.ops[0], unparse(e.comparators[0])
+            if l == stream and r == 'None':
+                if isinstance(op, ast.Is):
+                    return val['A']
+                if isinstance(op, ast.IsNot):
+                    return not val['A']
+            if l == f'options.args().{opt}' and r == stream:
+                if isinstance(op, ast.In):
+                    return val['B']
+                if isinstance(op, ast.NotIn):
+                    return not val['B']
+        return None
+
+    from ..shape import parse_expr
     for opt, stream in want.items():
         ok = False
-        for c in exits:
-            facts = facts_at(g, c)
-            code = c.args[0] if c.args else None
-            nonzero = code is not None and is_const(code) and code.value not \
-                in (0, None, False)
-            hit = (f'options.args().{opt} in {stream}', False) in facts or (
-                f'{stream} is None', True) in facts or any(
-                    pol and f'options.args().{opt} not in {stream}' in t
-                    for (t, pol) in facts)
-            setp = (f'options.args().{opt}', True) in facts
-            if nonzero and hit and setp:
+        for site in [(c, c) for c in exits] + [(r, r.exc) for r in raises]:
+            c, anchor = site
+            if isinstance(c, ast.Call):
+                code = c.args[0] if c.args else None
+                nonzero = code is not None and is_const(code) and \
+                    code.value not in (0, None, False)
+                if not nonzero:
+                    continue
+            facts = facts_at(g, anchor)
+            if (f'options.args().{opt}', True) not in facts:
+                continue
+            # the exit must be reached whenever the stream is missing or
+            # lacks the match string: for every such valuation all facts
+            # that speak about (stream, match) must hold
+            rel = []
+            for (t, pol) in facts:
+                e = parse_expr(t)
+                if e is None:
+                    continue
+                if ev(e, {'A': False, 'B': False}, opt, stream) is not None:
+                    rel.append((e, pol))
+            if not rel:
+                continue
+            good = True
+            for A in (True, False):
+                for B in (True, False):
+                    should_exit = A or not B
+                    if A and B:
+                        continue  # a None stream contains nothing
+                    reached = all(ev(e, {'A': A, 'B': B}, opt, stream) == pol
+                                  for (e, pol) in rel)
+                    if should_exit and not reached:
+                        good = False
+            if good:
                 ok = True
-        # raising the usage exception is accepted as well
-        for r in ast.walk(g):
-            if isinstance(r, ast.Raise):
-                facts = facts_at(g, r.exc) if r.exc is not None else set()
-                if (f'options.args().{opt} in {stream}', False) in facts:
-                    ok = True
         msg = (f'--{opt.replace("_", "-")} is never checked against '
                f'{stream}: a golden run whose output lacks the string does '
                'not stop ddSMT with status 1; every candidate is then '
                'rejected (or, worse, minimisation proceeds against a '
                'criterion the original input does not meet)')
         chk.check('C10.R5', gw, f'validation of {opt} against {stream}', ok,
-                  msg, loc=m.loc(g), nontrivial=True)
+                  msg, loc=m.loc(g), nontrivial=True,
+                  argument='the exit is reached for every valuation of '
+                  '(stream is None, match in stream) in which the stream '
+                  'is missing or lacks the match')
     # ordering in ddsmt_main
     cli = prog.mod('cli')
     mainf = cli.func('ddsmt_main')
